@@ -39,6 +39,7 @@ RULE += (' Also: await_each over a list extended by the consumer while it is ite
 RULE += (' Also: await_each over a lazy input that keeps none of its awaitables (addresses are reused).')
 RULE += (' Also: a queue (deque) handed to await_each and filled further before the first request.')
 RULE += (' Also: sync() of built-in callables (next, bound list.pop / dict.get, getattr, operator.getitem) handing out stored awaitables.')
+RULE += (' Also: sync() wrappers called with keywords of any name (function, self, args ...) and, stored as class attributes, through instances.')
 ASSUMPTIONS = ["direct specification oracle (no stdlib twin exists for these helpers)"]
 EXHAUSTIVE = {"quick": True, "thorough": True}
 MAX_SHARDS = 8
@@ -92,6 +93,10 @@ def cases(tier, seed, shard, nshards):
             idx += 1
             if idx % nshards == shard:
                 yield {"kind": "sync_related", "pattern": pattern, "order": order}
+    for how in ("keyword_named_function", "keyword_named_like_internals", "class_attribute", "class_attribute_async_def"):
+        idx += 1
+        if idx % nshards == shard:
+            yield {"kind": "sync_calling_conventions", "how": how}
     for which in ("next", "list_pop", "dict_get", "getattr", "operator_getitem", "deque_popleft", "len"):
         for stored in ("awaitable", "coroutine", "plain"):
             for susp in (0, 1):
@@ -1083,6 +1088,51 @@ def run_sync_related(case, stats):
     return {"violations": viols, "nontrivial": True, "sig": ("sync_related", pattern, str(order))}
 
 
+def run_sync_calling_conventions(case, stats):
+    """The wrapper sync() hands out is called like the function itself: with keywords of ANY name the function takes
+    (also ``function``, ``self``, ``args`` ...), and - stored as a class attribute - through an instance, like a method
+    ("a wrapped def behaves as if it were async def")."""
+    CTX.reset()
+    how = case["how"]
+    seen = []
+    viols = []
+
+    def takes_function(a, function=None, func=None, self=None, args=None, kwargs=None, wrapped=None, callable=None):
+        seen.append((a, function, func, self, args, kwargs, wrapped, callable))
+        return ("result", a)
+
+    def method(self, a):
+        seen.append((self, a))
+        return ("result", a)
+
+    async def amethod(self, a):
+        seen.append((self, a))
+        return ("result", a)
+
+    try:
+        if how == "keyword_named_function":
+            res = drive(_await(A.sync(takes_function)(7, function=3)))
+            want_seen = [(7, 3, None, None, None, None, None, None)]
+        elif how == "keyword_named_like_internals":
+            res = drive(_await(A.sync(takes_function)(7, func=1, self=2, args=3, kwargs=4, wrapped=5, callable=6)))
+            want_seen = [(7, None, 1, 2, 3, 4, 5, 6)]
+        else:
+            class Service:
+                op = A.sync(method if how == "class_attribute" else amethod)
+
+            inst = Service()
+            res = drive(_await(inst.op(7)))
+            want_seen = [(inst, 7)]
+        if res != ("result", 7) or seen != want_seen:
+            viols.append({"key": "sync/result", "msg": f"sync wrapper, {how}: gave {res!r}, the function saw {seen!r}"})
+    except BaseException as exc:  # noqa: BLE001
+        viols.append({"key": "sync/result", "msg": f"sync wrapper, {how}: raised {type(exc).__name__}: {exc}"})
+    if CTX.foreign:
+        viols.append({"key": "sync/foreign-suspension", "msg": CTX.foreign[0]})
+    stats["sync_calling_convention_runs"] += 1
+    return {"violations": viols, "nontrivial": True, "sig": ("sync_calling_conventions", how)}
+
+
 def run_sync_builtin(case, stats):
     """sync() of a BUILT-IN callable (``next``, a bound ``list.pop`` / ``dict.get``, ``getattr``, ``operator.getitem``) that
     merely hands out what is stored elsewhere: when that is an awaitable (a job kept in a queue / registry) the call
@@ -1150,6 +1200,8 @@ def inspect_is_coroutine(obj):
 def run_case(case, stats: Counter):
     if case["kind"] == "sync_builtin":
         return run_sync_builtin(case, stats)
+    if case["kind"] == "sync_calling_conventions":
+        return run_sync_calling_conventions(case, stats)
     if case["kind"] == "sync_related":
         return run_sync_related(case, stats)
     return {"any_iter": run_any_iter, "await_each": run_await_each, "apply": run_apply, "sync": run_sync,
